@@ -196,6 +196,10 @@ def run(repo: Repo, rep: Report, tier: str) -> None:
 
     # ---- survival ----------------------------------------------------------------------------
     check_survival(repo, rep, rm, "survival")
+    # ---- state is per instance -------------------------------------------------------------------
+    from ..lints import per_instance_state
+    rep.rule("per-instance-state", "mutable state of the protocol objects is created per instance, never as a class attribute")
+    per_instance_state(repo, rep, "per-instance-state", {"dul": ("DULServiceProvider",), "fsm": ("StateMachine",), "transport": ("AssociationSocket",), "timer": ("Timer",)})
 
 
 def check_survival(repo, rep, rm, rule):
